@@ -613,9 +613,27 @@ static void check_blocked_kernel_threads(void) {
     if (io && ((long)a[0] <= 2 || fstat((int)a[0], &st) || !(S_ISSOCK(st.st_mode) || S_ISFIFO(st.st_mode)))) io = 0;
     if (io && streak[i] > 0 && last_nr[i] == nr && last_fd[i] == (long)a[0] && last_sp[i] == sp && last_hits[i] == hits) {
       if (++streak[i] >= 3) {
+        // whose fault? The library's duty is to keep the descriptors it manages non-blocking in the kernel. If this one is, the thread
+        // sleeps for a reason inside the kernel (allocation, a socket lock) that no user-space code controls: noted, not judged.
+        const long fl = syscall(SYS_fcntl, (int)a[0], F_GETFL);
+        if (fl < 0 || (fl & O_NONBLOCK)) {
+          char wpath[64], wchan[64] = "?";
+          snprintf(wpath, sizeof(wpath), "/proc/self/task/%ld/wchan", lt);
+          const int wf = (int)syscall(SYS_openat, AT_FDCWD, wpath, O_RDONLY | O_CLOEXEC);
+          if (wf >= 0) {
+            const ssize_t wr = (ssize_t)syscall(SYS_read, wf, wchan, sizeof(wchan) - 1);
+            if (wr > 0) wchan[wr] = 0;
+            syscall(SYS_close, wf);
+          }
+          vp_note("kernel thread %d slept inside system call %ld on descriptor %ld for three looks although the descriptor is non-blocking (flags %lx, wchan %s): kernel-internal wait, not judged",
+                  i, nr, (long)a[0], fl, wchan);
+          vp_count("io_kernel_internal_sleeps_not_judged", 1);
+          streak[i] = 0;
+          continue;
+        }
         vp_violation("C08", "io:kernel-thread-blocked",
-                     "kernel thread %d of the runtime has been sleeping inside system call %ld on descriptor %ld (a %s) for three consecutive looks without running any fiber: "
-                     "the call blocked the whole thread instead of only the calling fiber",
+                     "kernel thread %d of the runtime has been sleeping inside system call %ld on descriptor %ld (a %s whose file status flags lack O_NONBLOCK) for three consecutive looks "
+                     "without running any fiber: the call blocked the whole thread instead of only the calling fiber",
                      i, nr, (long)a[0], S_ISSOCK(st.st_mode) ? "socket" : "pipe");
         reported = 1;
         streak[i] = 0;
